@@ -78,6 +78,16 @@ def _records(base):
         out.append(("TER",))
         out.append(("HETATM", "O", "HOH", "A", 2, 8.0, 8.0, 8.0, 2))
         out.append(("HETATM", "O", "HOH", "B", 2, 18.0, 8.0, 8.0, 3))
+    elif base == "D":  # RNA with one-letter residue names + waters
+        for n, x, y, z in (("P", 0.0, 0.0, 0.0), ("O5'", 1.5, 0.2, 0.1),
+                           ("C5'", 2.5, 1.2, 0.3), ("C4'", 3.9, 0.8, 0.4)):
+            out.append(("ATOM", n, "A", "R", 1, x, y, z, 0))
+        for n, x, y, z in (("P", 7.0, 2.0, 1.0), ("O5'", 8.5, 2.2, 1.1),
+                           ("C5'", 9.5, 3.2, 1.3), ("C4'", 10.9, 2.8, 1.4)):
+            out.append(("ATOM", n, "U", "R", 2, x, y, z, 1))
+        out.append(("TER",))
+        out.append(("HETATM", "O", "HOH", "R", 3, 8.0, 8.0, 8.0, 2))
+        out.append(("ATOM", "O", "WAT", "R", 4, 12.0, 8.0, 8.0, 3))
     elif base == "C":  # hetero group between chain and waters, no TER
         for n, x, y, z in _GLY:
             out.append(("ATOM", n, "GLY", "A", 1, x, y, z, 0))
@@ -546,7 +556,7 @@ def run_case(case):
 
 def variants():
     out = []
-    for base in ("A", "B", "C"):
+    for base in ("A", "B", "C", "D"):
         for layout in MODEL_LAYOUTS:
             for flags in ((), ("crlfall",), ("blankchain",), ("samechain",)):
                 if "samechain" in flags and base != "B":
@@ -595,5 +605,5 @@ def finish(ctx):
         "insert": sorted(INSERTS), "modify_line": list(LINE_MODS),
         "modify_residue": list(RES_MODS),
         "file_level": ["crlfall", "blankchain", "samechain"],
-        "model_layouts": list(MODEL_LAYOUTS), "bases": ["A", "B", "C"],
+        "model_layouts": list(MODEL_LAYOUTS), "bases": ["A", "B", "C", "D"],
     }
